@@ -11,10 +11,10 @@ ENGINE = "scope"
 CHUNK = 8
 RULE = (
     "plain cases = every boolean mask (>=1 unmasked pixel) of every shape HxW with H*W <= bound; per mask: value menus "
-    "(mixed signs with exact zeros and data==model pixels / all-negative data) x background-sky {0, 0.3} x "
+    "(mixed signs with exact zeros and data==model pixels / all-negative data) x background-sky {0, 0.3, -0.3} x "
     "{slim mode on slim arrays, mask-in-fit mode on native-stored arrays with each of 4 garbage assignments in masked "
     "pixels}; inversion cases = (interior mask of the 5x5 frame / 3x3 PSF, PSF kind, sub-size, ordered list of linear "
-    "objects with regularization flags, solver) each run in both formalisms x both fit modes x sky {0, 0.3}; "
+    "objects with regularization flags, solver) each run in both formalisms x both fit modes x sky {0, 0.3, -0.3}; "
     "non-trivial = plain: the mask has masked pixels; inversion: the list has >= 2 objects or is partially unregularized"
 )
 ASSUMPTIONS = [
@@ -39,7 +39,7 @@ BOUNDS = {
 }
 
 GARBAGE = [0.0, 7.0, -3.0, 1.0e6]
-SKIES = [0.0, 0.3]
+SKIES = [0.0, 0.3, -0.3]  # the offset may be added or subtracted: both signs are legal
 MENUS = ["mixed", "negative"]
 RTOL = 1e-9
 LD_FLOOR = 1e-9
